@@ -33,7 +33,7 @@ func vU(i int) string {
 	case 8:
 		return "/t[a=1][b=2]/x"
 	case 9:
-		return "/t[a=1][b=3]/x"
+		return "/t[a=1][b=3/4]/x"
 	case 10:
 		return "/l[k=1]"
 	}
@@ -290,7 +290,7 @@ func VerifC18Tree() {
 	}
 	// two-key list: entries (1,2) and (1,3) share one key value and must stay apart
 	n12, e12, tot2 := vEntries(root, "t", "a", "1", "b", "2")
-	n13, e13, _ := vEntries(root, "t", "a", "1", "b", "3")
+	n13, e13, _ := vEntries(root, "t", "a", "1", "b", "3/4")
 	w12, w13 := 0, 0
 	if in.live(8) {
 		w12 = 1
